@@ -160,9 +160,26 @@ def tcp_exchange(s, peer, sport, dport, segments, seq=None, r=None, fin=False):
     return s.send(frames)
 
 
+TS_OPT = b"\x01\x01\x08\x0a" + b"\x00\x01\xe2\x40" + b"\x00\x00\x00\x00"          # NOP NOP timestamp (12 bytes)
+MSS_OPT = b"\x02\x04\x05\xb4"
+
+
+def tcp_opts(k):
+    """TCP options for the k-th segment of a batch: most segments have none (as after a
+    SYN-ACK that negotiated none), some carry a timestamp, a few the maximum of 40 bytes."""
+    if k % 5 == 3:
+        return {"doff": 8, "options": TS_OPT}
+    if k % 13 == 7:
+        return {"doff": 15, "options": b"\x01" * 40}
+    if k % 17 == 11:
+        return {"doff": 6, "options": b"\x01\x01\x01\x00"}
+    return {}
+
+
 def tcp_batch(s, flows):
     """flows: list of (peer, sport, dport, isn, [segments]).  Sends all SYNs, then all data."""
-    syns = [p.tcp(sp, dp, isn, 0, F_SYN) for (p, sp, dp, isn, segs) in flows]
+    syns = [p.tcp(sp, dp, isn, 0, F_SYN, **({"doff": 6, "options": MSS_OPT} if i % 7 == 2 else {}))
+            for i, (p, sp, dp, isn, segs) in enumerate(flows)]
     obs = s.send(syns)
     data = []
     for (p, sp, dp, isn, segs), o in zip(flows, obs):
@@ -171,7 +188,7 @@ def tcp_batch(s, flows):
         ck = tcp_fields(bytes(o["rep"]))["seq"]
         cur = (isn + 1) & 0xFFFFFFFF
         for seg in segs:
-            data.append(p.tcp(sp, dp, cur, (ck + 1) & 0xFFFFFFFF, F_PSH | F_ACK, seg))
+            data.append(p.tcp(sp, dp, cur, (ck + 1) & 0xFFFFFFFF, F_PSH | F_ACK, seg, **tcp_opts(len(data))))
             cur = (cur + len(seg)) & 0xFFFFFFFF
     return s.send(data)
 
@@ -211,6 +228,13 @@ def gen_mirror(runner, tier, seed):
             for cp in (True, False):
                 fr.append(p.udp(r.randrange(65536), dport, stun(txid=bytes(r.randrange(256) for _ in range(16)), attrs=stun_change_request(r.random() < 0.5, cp))))
     s.send(fr)
+    flows = []
+    for dport in (0, 3478, 65535):
+        for p in (peer4(), peer6()):
+            for cp in (True, False):
+                q = stun(txid=STUN_MAGIC + rb(r, 12), attrs=stun_attr(0x8022, rb(r, 252)) + stun_change_request(False, cp))
+                flows.append((p, 30000 + len(flows), dport, r.randrange(1 << 32), [q]))
+    tcp_batch(s, flows)
 
 
 # ------------------------------------------------------------------ C04
@@ -548,6 +572,14 @@ def gen_log(runner, tier, seed):
                 fr.append(p6.echo(1, 1, b"j" * n))
             fr.append(p4.udp(1, 2, http_request("GET", b"/" + b"a" * 1500)))
             fr.append(eth(b"\xff" * 6, cm, 0x0806, arp(1, cm, C4, "00:00:00:00:00:00", S4, trailer=b"\0" * 18)))
+            # every header word of answered and of dropped frames set to boundary values
+            # (fragment fields, lengths, versions, type-of-service, hop limits, ports, flags)
+            basef = [p4.echo(7, 7, b"hv"), p6.echo(7, 7, b"hv"), p4.udp(4000, 80, http_request()), p6.udp(4000, 80, http_request()),
+                     p4.tcp(4001, 80, 5, 0, F_SYN), p6.tcp(4001, 80, 5, 0, F_SYN), p4.tcp(4002, 80, 5, 6, F_ACK), p4.udp(4003, 80, b"nothing"),
+                     eth(b"\xff" * 6, cm, 0x0806, arp(1, cm, C4, "00:00:00:00:00:00", S4)),
+                     eth(SMAC, cm, 0x86DD, ipv6(C6, S6, 58, nd_ns(C6, S6, S6, b"\x01\x01" + cm), hlim=255))]
+            for f in basef:
+                fr += header_variants(f, r, tier)
             s.send(fr)
             flows = [(p, 7000 + i, 80, 1, [pl]) for i, pl in enumerate(app_requests(r, tcpmode=True)) for p in (p4, p6)]
             tcp_batch(s, flows)
@@ -604,16 +636,16 @@ class Flow:
             self.ck = tcp_fields(bytes(obs["rep"]))["seq"]
             self.seq = (self.seq + 1) & 0xFFFFFFFF
 
-    def data(self, payload, ack=None, flags=F_PSH | F_ACK, advance=True):
+    def data(self, payload, ack=None, flags=F_PSH | F_ACK, advance=True, **kw):
         a = ((self.ck or 0) + 1) & 0xFFFFFFFF if ack is None else ack & 0xFFFFFFFF
-        f = self.peer.tcp(self.sport, self.dport, self.seq, a, flags, payload)
+        f = self.peer.tcp(self.sport, self.dport, self.seq, a, flags, payload, **kw)
         if advance:
             self.seq = (self.seq + len(payload)) & 0xFFFFFFFF
         return f
 
-    def raw(self, flags, payload=b"", ack=None):
+    def raw(self, flags, payload=b"", ack=None, **kw):
         a = ((self.ck or 0) + 1) & 0xFFFFFFFF if ack is None else ack & 0xFFFFFFFF
-        return self.peer.tcp(self.sport, self.dport, self.seq, a, flags, payload)
+        return self.peer.tcp(self.sport, self.dport, self.seq, a, flags, payload, **kw)
 
 
 def open_flows(s, flows):
@@ -694,7 +726,8 @@ def gen_tcp_gate(runner, tier, seed):
             f, st = script[k]
             kind, flags, pay, ack = st[idx[k]]
             idx[k] += 1
-            frames.append(f.data(pay, ack, flags) if kind == "data" else f.raw(flags, pay, ack))
+            kw = tcp_opts(r.randrange(60))
+            frames.append(f.data(pay, ack, flags, **kw) if kind == "data" else f.raw(flags, pay, ack, **kw))
             if r.random() < 0.15:
                 frames.append(noise(r))
         s.send(frames)
@@ -889,6 +922,10 @@ def gen_segmentation(runner, tier, seed):
             plans += [split_at(req, [a, b]) for a in range(1, n) for b in range(a + 1, n)][:4000]   # every 2-cut (bounded)
         plans += [[req[i:i + 1] for i in range(n)]]                              # byte by byte
         plans += [split_at(req, sorted(set(r.randrange(1, n) for _ in range(r.randrange(3, 9))))) for _ in range(10 if tier == "quick" else 200)]
+        # empty data segments before, inside and after the request (a legal cut: zero bytes)
+        for c in ([0, 1, 2, 3, 4, 5, n // 2, n - 1, n] if tier == "quick" else range(0, n + 1)):
+            plans.append([req[:c], b"", req[c:]] if 0 < c < n else ([b"", req] if c == 0 else [req, b""]))
+            plans.append([req[:c], b"", b"", req[c:]])
         peers = [peer4(), peer6()]
         for chunk in chunks(plans, 60):
             flows = []
@@ -901,7 +938,7 @@ def gen_segmentation(runner, tier, seed):
             pending = [[f, list(pl)] for f, pl in flows if f.ck is not None]
             while pending:
                 for item in list(pending):
-                    frames.append(item[0].data(item[1].pop(0)))
+                    frames.append(item[0].data(item[1].pop(0), **tcp_opts(len(frames))))
                     if not item[1]:
                         pending.remove(item)
             s.send(frames)
@@ -1086,6 +1123,15 @@ def gen_stun(runner, tier, seed):
             u1, u2 = stun_attr(0x8022, rb(r, 252)), stun_attr(0x8028, rb(r, 4))
             for attrs in (u1 + cr, u1 + u2 + cr, u2 + cr + u1, cr + u1, u1 + cr + u2):
                 pl.append(stun(0x0001, STUN_MAGIC + rb(r, 12), attrs))
+    key = list(pl[-20:])
+    # bytes after the declared message length are not part of the message (whatever they look like)
+    for _ in range(4 if tier == "quick" else 40):
+        body = stun_attr(0x8022, rb(r, 252))
+        for trailer in (stun_change_request(False, True), stun_change_request(True, True), b"\xde\xad\xbe\xef\0\0", b"\0", rb(r, r.randrange(1, 12)),
+                        stun_attr(0x0001, b"\0\1\x11\x22\1\2\3\4")):
+            key.append(stun(0x0001, STUN_MAGIC + rb(r, 12), body + trailer, length=len(body)))
+            key.append(stun(0x0001, STUN_MAGIC + rb(r, 12), body + stun_change_request(False, True) + trailer, length=len(body) + 8))
+    pl += key[20:]
     # other classes and methods; wrong lengths; malformed TLVs
     for t in (0x0011, 0x0101, 0x0111, 0x0002, 0x0003, 0x0102, 0x0004, 0x0112, 0x4001, 0x8001, 0x0000, 0x0201):
         pl.append(stun(t, rb(r, 16)))
@@ -1115,7 +1161,8 @@ def gen_stun(runner, tier, seed):
                 continue
             fr.append(p.udp(r.choice([0, 1, 65535, r.randrange(65536)]), r.choice([3478, 65535, 0, r.randrange(65536)]), q))
     s.send(fr)
-    send_payloads(runner, "stun over tcp", [q for q in pl if q[4:8] == STUN_MAGIC][:60 if tier == "quick" else 600], r, tier, udp=False)
+    m = [q for q in pl if q[4:8] == STUN_MAGIC]
+    send_payloads(runner, "stun over tcp", key + r.sample(m, min(len(m), 60 if tier == "quick" else 600)), r, tier, udp=False)
 
 
 def gen_rpc(runner, tier, seed):
@@ -1149,6 +1196,17 @@ def gen_rpc(runner, tier, seed):
         args = struct.pack(">IIII", 100003, 3, 6, 0) if pr == 3 else b""
         p = r.choice([peer4(), peer6(), Peer(CMAC, SMAC, rand_ip6(r), rand_ip6(r)), Peer(CMAC, SMAC, rand_ip4(r), rand_ip4(r))])
         flows.append((p, 1024 + (i % 60000), r.choice([111, 0, 65535, r.randrange(65536)]), r.randrange(1 << 32), [rpc_call(x, prog, v, pr, cred, verf, args, tcp=True)]))
+    for ch in chunks(flows, 500):
+        s.reset()
+        tcp_batch(s, ch)
+    # record marks: last-fragment bit clear, every value of the first byte, lengths that lie
+    s = runner.session(cfg_plain(), "rpc record marks")
+    flows = []
+    for hi in range(256):
+        for (v, pr) in ((2, 3), (4, 0)) if tier == "quick" else ((2, 3), (4, 0), (3, 4), (9, 1), (2, 77)):
+            m = rpc_call(xid(), 100000, v, pr, args=struct.pack(">IIII", 100003, 3, 6, 0) if pr == 3 else b"")
+            mark = struct.pack(">I", (hi << 24) | (len(m) if hi in (0, 0x80) or r.random() < 0.5 else r.randrange(1 << 24)))
+            flows.append((r.choice([peer4(), peer6()]), 1024 + len(flows), r.choice([111, 2049, r.randrange(65536)]), r.randrange(1 << 32), [mark + m]))
     for ch in chunks(flows, 500):
         s.reset()
         tcp_batch(s, ch)
@@ -1515,13 +1573,19 @@ def gen_identification(runner, tier, seed, mismatches):
     # the decision does not depend on how the leading bytes are cut (stream protocols)
     s = runner.session(cfg_plain(), "leading bytes cut at every position")
     flows, plans = [], []
-    reqs = [http_request("OPTIONS", b"/"), http_request("GET", b"/"), rpc_call(0x12345678, vers=2, proc=3, tcp=True), rpc_call(0x80000001, vers=4, proc=0, tcp=True)]
+    reqs = [http_request("OPTIONS", b"/"), http_request("GET", b"/"), rpc_call(0x12345678, vers=2, proc=3, tcp=True), rpc_call(0x80000001, vers=4, proc=0, tcp=True),
+            ssh_ident(), ssh_ident(version=b"1.99"), ghost(b"abc"), smb1_negotiate(), smb2_negotiate(),
+            stun(txid=STUN_MAGIC + rb(r, 12), attrs=stun_attr(0x8022, b"s" * 256))]
     port = 5000
     for q in reqs:
-        for c in range(1, 30):
+        for c in range(0, 30):
             port += 1
             flows.append(Flow(r.choice([peer4(), peer6()]), port, r.randrange(65536), r.randrange(1 << 32)))
-            plans.append(split_at(q, [c]) if c < len(q) else [q])
+            plans.append(split_at(q, [c]) if 0 < c < len(q) else [q])
+            # the same cut with an empty data segment in the middle (or in front)
+            port += 1
+            flows.append(Flow(r.choice([peer4(), peer6()]), port, r.randrange(65536), r.randrange(1 << 32)))
+            plans.append([q[:c], b"", q[c:]] if 0 < c < len(q) else [b"", q])
     live = open_flows(s, flows)
     frames = []
     for f, pl in zip(flows, plans):
@@ -1554,6 +1618,22 @@ def frame_offsets(f):
         offs["proto"] = proto
         offs["app"] = 54 + (8 if proto == 17 else 20 if proto == 6 else 4)
     return offs
+
+
+def header_variants(f, r, tier):
+    """Every 16-bit word (and byte) of the headers below the application payload set to boundary values."""
+    out = []
+    offs = frame_offsets(f)
+    end = min(len(f), offs.get("app", len(f)))
+    for o in range(12, end - 1):
+        w = struct.unpack(">H", f[o:o + 2])[0]
+        vs = [0, 1, (w + 1) & 0xffff, 0xffff, 0x8000, w ^ 0x0100]
+        if tier == "quick":
+            vs = r.sample(vs, 3)
+        for v in vs:
+            if v != w:
+                out.append(f[:o] + struct.pack(">H", v) + f[o + 2:])
+    return out
 
 
 def mutations(f, r, tier):
